@@ -164,6 +164,8 @@ func CheckPanics(run *core.Run, prog *load.Program) {
 								s.ok, s.reason = true, why
 							} else if ok, why := bd.lastElemOK(f, x); ok {
 								s.ok, s.reason = true, why
+							} else if ok, why := namedSliceInvariant(prog, info, fd, x); ok {
+								s.ok, s.reason = true, why
 							} else if c, isC := bd.constInt(x.Index); isC && c >= 0 {
 								target := types.ExprString(x.X)
 								if ok, n := bd.guardedAtCallers(func(ci *types.Info, cfd *ast.FuncDecl, subst func(string) string) func(ast.Expr) (bool, bool) {
@@ -290,10 +292,10 @@ func CheckPanics(run *core.Run, prog *load.Program) {
 	run.Count("panic_sites", len(sites))
 	run.Count("panic_sites_auto_discharged", nAuto)
 	run.Count("panic_sites_table", nTable)
-	run.Floor("G-PANIC/index", 8)
+	run.Floor("G-PANIC/index", 4)
 	run.Floor("G-PANIC/go/types-accessor", 1)
-	run.Floor("G-PANIC/type-assertion", 3)
-	run.Floor("G-PANIC/recursion", 3)
+	run.Floor("G-PANIC/type-assertion", 1)
+	run.Floor("G-PANIC/recursion", 1)
 }
 
 // lenOracle builds a branch oracle under the assumption len(X) <= max (X by source text),
@@ -1071,6 +1073,17 @@ func structuralFrom1(prog *load.Program, info *types.Info, fd *ast.FuncDecl, a a
 						if recv, ok := goTypesIterator(info, rs.X); ok && structuralFrom(prog, info, fd, recv, false, depth+1) {
 							isElem = true
 						}
+						if recv, ok := accessorIterator(prog, info, rs.X, false); ok && structuralFrom(prog, info, fd, recv, false, depth+1) {
+							isElem = true
+						}
+					}
+				}
+				// ... or the second variable of a two-value iterator of that kind (index, element)
+				if rs, ok := nn.(*ast.RangeStmt); ok && rs.Value != nil {
+					if vid, ok := rs.Value.(*ast.Ident); ok && info.ObjectOf(vid) == v {
+						if recv, ok := accessorIterator(prog, info, rs.X, true); ok && structuralFrom(prog, info, fd, recv, false, depth+1) {
+							isElem = true
+						}
 					}
 				}
 				return true
@@ -1729,7 +1742,17 @@ func CheckRecursionFanout(run *core.Run, prog *load.Program) {
 				}
 				var as []string
 				for _, a := range s.Call.Args {
-					as = append(as, types.ExprString(a))
+					// the same text over different variables (two loops with a variable v each) is not the same call
+					txt := types.ExprString(a)
+					ast.Inspect(a, func(x ast.Node) bool {
+						if id, ok := x.(*ast.Ident); ok {
+							if v, ok := info.ObjectOf(id).(*types.Var); ok && !v.IsField() {
+								txt += fmt.Sprintf("@%d", v.Pos())
+							}
+						}
+						return true
+					})
+					as = append(as, txt)
 				}
 				k := key{types.ExprString(s.Call.Fun), strings.Join(as, ",")}
 				sites[k] = append(sites[k], s)
@@ -2333,4 +2356,204 @@ func goTypesIterator(info *types.Info, e ast.Expr) (ast.Expr, bool) {
 		return nil, false
 	}
 	return sel.X, true
+}
+
+// namedSliceInvariant: x[c] on the receiver of a method of a named slice type T declared in moq, where
+// values of T only ever come from conversions T(v) that are unreachable when len(v) <= c: T is named
+// nowhere but in its declaration, its method receivers and those conversions, and no value of type T is
+// produced by slicing or appending.
+func namedSliceInvariant(prog *load.Program, info *types.Info, fd *ast.FuncDecl, x *ast.IndexExpr) (bool, string) {
+	tv := info.Types[x.Index]
+	if tv.Value == nil || tv.Value.Kind() != constant.Int || fd.Recv == nil || len(fd.Recv.List) != 1 || len(fd.Recv.List[0].Names) != 1 {
+		return false, ""
+	}
+	c, _ := constant.Int64Val(tv.Value)
+	rid, ok := ast.Unparen(x.X).(*ast.Ident)
+	if !ok || info.ObjectOf(rid) != info.Defs[fd.Recv.List[0].Names[0]] || c < 0 {
+		return false, ""
+	}
+	named, ok := types.Unalias(info.TypeOf(x.X)).(*types.Named)
+	if !ok || !prog.IsMoqPkg(named.Obj().Pkg()) {
+		return false, ""
+	}
+	if _, isSlice := named.Underlying().(*types.Slice); !isSlice {
+		return false, ""
+	}
+	// the receiver is never reassigned
+	if len(newBounds(prog, info, fd).assigns[info.ObjectOf(rid)]) != 0 {
+		return false, ""
+	}
+	okAll, nconv := true, 0
+	for _, pk := range prog.MoqPackages() {
+		pinfo := pk.TypesInfo
+		for _, file := range pk.Syntax {
+			// where T is named
+			var stack []ast.Node
+			ast.Inspect(file, func(n ast.Node) bool {
+				if n == nil {
+					stack = stack[:len(stack)-1]
+					return true
+				}
+				stack = append(stack, n)
+				id, isID := n.(*ast.Ident)
+				if !isID || pinfo.Uses[id] != types.Object(named.Obj()) {
+					return true
+				}
+				parent := stack[len(stack)-2]
+				for i := len(stack) - 2; i >= 0; i-- {
+					if _, isParen := stack[i].(*ast.ParenExpr); isParen {
+						continue
+					}
+					if _, isStar := stack[i].(*ast.StarExpr); isStar {
+						continue
+					}
+					parent = stack[i]
+					break
+				}
+				switch p := parent.(type) {
+				case *ast.Field:
+					// a method receiver?
+					isRecv := false
+					for _, anc := range stack {
+						if d, ok := anc.(*ast.FuncDecl); ok && d.Recv != nil && len(d.Recv.List) == 1 && d.Recv.List[0] == p {
+							isRecv = true
+						}
+					}
+					if !isRecv {
+						okAll = false
+					}
+				case *ast.CallExpr:
+					if ast.Unparen(p.Fun) != ast.Expr(id) || len(p.Args) != 1 {
+						okAll = false
+						break
+					}
+					// the conversion: unreachable when the operand is too short
+					var efd *ast.FuncDecl
+					for _, anc := range stack {
+						if d, ok := anc.(*ast.FuncDecl); ok {
+							efd = d
+						}
+					}
+					if efd == nil || efd.Body == nil {
+						okAll = false
+						break
+					}
+					nconv++
+					cf := cfgx.New(pinfo, efd)
+					if reachable(cf, p, lenOracleIn(pinfo, efd, types.ExprString(p.Args[0]), c)) {
+						okAll = false
+					}
+				default:
+					okAll = false
+				}
+				return true
+			})
+		}
+		// no value of type T made by slicing, appending or a literal
+		for e, etv := range pinfo.Types {
+			if etv.IsType() || etv.Type == nil || !types.Identical(etv.Type, named) {
+				continue
+			}
+			switch y := ast.Unparen(e).(type) {
+			case *ast.SliceExpr, *ast.CompositeLit:
+				okAll = false
+			case *ast.CallExpr:
+				if id, ok := ast.Unparen(y.Fun).(*ast.Ident); ok {
+					if _, isB := pinfo.Uses[id].(*types.Builtin); isB {
+						okAll = false // append, make ...
+					}
+				}
+			}
+		}
+	}
+	if !okAll || nconv == 0 {
+		return false, ""
+	}
+	return true, fmt.Sprintf("type invariant: values of %s come only from %d conversion(s) %s(v), each unreachable when len(v) <= %d; the type is named nowhere else and never sliced, appended to or built by a literal", named.Obj().Name(), nconv, named.Obj().Name(), c)
+}
+
+// accessorIterator: e is a call of a moq iterator helper that is handed a structural accessor as a method
+// value (indexed(t.NumFields(), t.Field)) and yields nothing but results of that accessor; it returns
+// the accessor's receiver. two: the helper yields (index, element) pairs.
+func accessorIterator(prog *load.Program, info *types.Info, e ast.Expr, two bool) (ast.Expr, bool) {
+	call, ok := ast.Unparen(e).(*ast.CallExpr)
+	if !ok || prog == nil {
+		return nil, false
+	}
+	fn, _ := typeutil.Callee(info, call).(*types.Func)
+	if fn == nil || !prog.IsMoqPkg(fn.Pkg()) {
+		return nil, false
+	}
+	d := prog.Decl(fn.Origin())
+	cinfo := prog.Info(fn.Pkg())
+	if d == nil || d.Body == nil || cinfo == nil || len(d.Body.List) != 1 {
+		return nil, false
+	}
+	// which argument is the accessor
+	ai := -1
+	var recv ast.Expr
+	for i, a := range call.Args {
+		sel, ok := ast.Unparen(a).(*ast.SelectorExpr)
+		if !ok || !structuralAccessors[sel.Sel.Name] {
+			continue
+		}
+		if s, ok := info.Selections[sel]; ok && s.Kind() == types.MethodVal {
+			ai, recv = i, sel.X
+		}
+	}
+	if ai < 0 {
+		return nil, false
+	}
+	var param types.Object
+	k := 0
+	for _, f := range d.Type.Params.List {
+		for _, nm := range f.Names {
+			if k == ai {
+				param = cinfo.Defs[nm]
+			}
+			k++
+		}
+	}
+	ret, ok := d.Body.List[0].(*ast.ReturnStmt)
+	if !ok || len(ret.Results) != 1 || param == nil {
+		return nil, false
+	}
+	lit, ok := ast.Unparen(ret.Results[0]).(*ast.FuncLit)
+	if !ok || lit.Type.Params == nil || len(lit.Type.Params.List) != 1 || len(lit.Type.Params.List[0].Names) != 1 {
+		return nil, false
+	}
+	yield := cinfo.Defs[lit.Type.Params.List[0].Names[0]]
+	okAll, n := true, 0
+	ast.Inspect(lit.Body, func(x ast.Node) bool {
+		c, ok := x.(*ast.CallExpr)
+		if !ok {
+			return true
+		}
+		id, ok := ast.Unparen(c.Fun).(*ast.Ident)
+		if !ok || cinfo.ObjectOf(id) != yield {
+			return true
+		}
+		n++
+		want := 1
+		if two {
+			want = 2
+		}
+		if len(c.Args) != want {
+			okAll = false
+			return true
+		}
+		el, ok := ast.Unparen(c.Args[want-1]).(*ast.CallExpr)
+		if !ok {
+			okAll = false
+			return true
+		}
+		if fid, ok := ast.Unparen(el.Fun).(*ast.Ident); !ok || cinfo.ObjectOf(fid) != param {
+			okAll = false
+		}
+		return true
+	})
+	if !okAll || n == 0 {
+		return nil, false
+	}
+	return recv, true
 }
